@@ -117,6 +117,27 @@ def tlc_cmd(heap="3g", extra_jvm=()):
     return ["java", "-XX:+UseParallelGC", "-XX:ParallelGCThreads=4", "-Xmx" + heap, "-Xss64m", *extra_jvm, "-cp", JAR, "tlc2.TLC"]
 
 
+SIM_BASES = ["2sync", "2async", "2prevote", "3sync", "3async", "reads", "conf", "snap", "tick", "xfer", "flow"]
+
+
+def sim_job(hb, workdir, base, num, depth, seed, out):
+    """S1: one shell pipeline: TLC simulation of a small instance -> schedules -> replay on the real code.
+    The last line of its stdout is the replay summary."""
+    import vbases
+    sd = spec_dir(workdir)
+    tla, consts = vbases.BASES[base]
+    cfg = "Sim_%s.cfg" % base
+    open(os.path.join(sd, cfg), "w").write(vbases.SIM_CFG % consts)
+    d = os.path.join(workdir, "sim_" + base)
+    os.makedirs(os.path.join(d, "sched"), exist_ok=True)
+    tlc = " ".join(tlc_obs_cmd() + ["-workers", "1", "-simulate", "file=%s/s,num=%d" % (d, num), "-depth", str(depth), "-seed", str(seed),
+                                    "-metadir", os.path.join(d, "meta"), "-config", cfg, "Sim.tla"])
+    sh = ("cd %s && %s > %s/tlc.log 2>&1; grep -q 'Finished in' %s/tlc.log || { tail -5 %s/tlc.log >&2; exit 3; }; "
+          "%s simsched -in %s/s -outdir %s/sched -tag %s > /dev/null && rm -f %s/s_* && %s replay -scheddir %s/sched -out %s -tr 1"
+          % (sd, tlc, d, d, d, hb, d, d, base, d, hb, d, out))
+    return ["bash", "-c", sh]
+
+
 def tlc_obs_cmd():
     # many single-worker JVMs side by side: the serial collector scales best (measured)
     return ["java", "-XX:+UseSerialGC", "-Xmx2g", "-Xss64m", "-cp", JAR, "tlc2.TLC"]
